@@ -1,6 +1,17 @@
 META = {
-    "assumptions": ["allocation failure out of scope (--no-malloc-may-fail)"],
-    "outside": [],
+    "assumptions": ["allocation failure out of scope (--no-malloc-may-fail)",
+                    "one inductive step from an arbitrary valid attribute list (unique names, block part sorted, both parts "
+                    "within capacity); histories follow by induction because every step re-establishes that invariant",
+                    "update/remove: memmove of the attribute array modelled as an element-wise copy (stub_memmove)"],
+    "outside": ["values stored in EA inodes (xattr_create_ea_inode, xattr_inode_dec_ref, reading through ext2fs_file_*): needs inode allocation and file I/O",
+                "ext2fs_xattrs_write / ext2fs_xattrs_read_inode as a whole: placement of the region inside the inode (i_extra_isize), EA block "
+                "allocation, copy-on-write of shared blocks, h_refcount, i_file_acl / i_blocks accounting, block checksum (ext2fs_adjust_ea_refcount3, "
+                "ext2fs_free_ext_attr, prep_ea_block_for_write)",
+                "ext2fs_xattr_set's own free-space computation from the inode (space_used, i_extra_isize, s_want_extra_isize) and its same-value shortcut",
+                "POSIX ACL conversion (convert_posix_acl_to_disk_buffer and back)", "interaction with inline data (system.data kept in the inode body)",
+                "more than 3 attributes, names > 4 and values > 8 bytes, regions > 96 bytes, ext2fs_xattrs_expand",
+                "e2fsck pass1 checks and ea_refcount, debugfs/create_inode callers",
+                "storage leak / double free beyond the cleared slot checked in harness remove"],
 }
 
 HASH_UW = ["main.%d:14" % i for i in range(8)] + \
@@ -58,9 +69,9 @@ def rm_uw(n, nm=3, vm=8):
          "vf_attr_is.0:6", "vf_attr_is.1:%d" % (nm + 2), "vf_attr_is.2:%d" % (vm + 1),
          "strcmp.0:%d" % (5 + nm + 2), "strlen.0:26"]
 
-def rm_cfgs():
+def rm_cfgs(op):
     c = []
-    for op in (1, 2):
+    for op in (op,):
         for n in (1, 2, 3):
             for ibc in range(n + 1):
                 if op == 2 and ibc not in (0,):
@@ -70,10 +81,15 @@ def rm_cfgs():
 
 HARNESSES = [
     dict(name="remove", src="remove.c",
-         funcs=["ext2fs_xattr_remove", "ext2fs_xattr_get", "ext2fs_xattrs_write", "ext2fs_xattrs_open"],
-         configs=rm_cfgs(), unwind=5, backends=["default", "kissat"],
+         funcs=["ext2fs_xattr_remove", "ext2fs_xattrs_write", "ext2fs_xattrs_open"],
+         configs=rm_cfgs(1), unwind=5, backends=["default", "kissat"],
          bound="N in {1,2,3} attributes in namespace user., ibody_count 0..N (compile time), short names 0..3 bytes, "
                "values 0..8 bytes, key symbolic (present at any position or absent)"),
+    dict(name="get", src="remove.c",
+         funcs=["ext2fs_xattr_get", "ext2fs_xattrs_open"],
+         configs=rm_cfgs(2), unwind=5, backends=["default", "kissat"],
+         bound="N in {1,2,3} attributes in namespace user., short names 0..3 bytes, values 0..8 bytes, key symbolic "
+               "(present at any position or absent)"),
     dict(name="update", src="update.c",
          funcs=["xattr_array_update", "xattr_update_entry", "xattr_find_position", "find_ea_index", "ext2fs_xattrs_open"],
          configs=up_cfgs(), witness_per_config=True, unwind=5, backends=["default", "kissat"],
@@ -94,6 +110,11 @@ HARNESSES = [
                "block hash over 0..3 entries with symbolic entry hashes and end pointer"),
 ]
 MANIFEST = {
-    "text": "",
-    "note": "",
+    "text": "Bounded-exhaustive for the attribute list and its byte image: from every valid in-memory list within the bounds, one "
+            "set (xattr_array_update), remove or get yields exactly the model map, keeps both parts within their capacity and the block "
+            "part in kernel order; the serialiser writes a region that an independent reader of the on-disk format and the real parser "
+            "both decode to the same list; entry and block hashes equal the format's definition for all inputs in the bound. "
+            "Disk-level bookkeeping (EA block allocation, refcounts, EA inodes) is outside.",
+    "note": "Trusted: CBMC's C semantics, the harness's restatement of the on-disk format (xa_common.h), the element-wise memmove model, "
+            "bounds listed per harness in evidence/C15.json.",
 }
